@@ -30,7 +30,8 @@ theorem verdict_agrees (env : Env) (hre : Spec.RegexTotal env) (hurl : Spec.UrlT
       ↔ Spec.valid env d s i = true)
     ∧ ((eval env impl (d.cfg none) fuel i s (some 1) st).stop = .done
         ∨ (eval env impl (d.cfg none) fuel i s (some 1) st).stop = .budget) := by
-  sorry
+  exact verdict_of_ex (prefixLaw_eval env impl _ fuel i s)
+    (eval_valid env hre hurl hset impl d s i hs hws hwi hnum hty fuel (by omega)) st
 
 /-- the same for the exhaustive run: `iter_errors` yields nothing exactly when valid -/
 theorem errors_empty_iff_valid (env : Env) (hre : Spec.RegexTotal env) (hurl : Spec.UrlTotal env)
@@ -40,7 +41,8 @@ theorem errors_empty_iff_valid (env : Env) (hre : Spec.RegexTotal env) (hurl : S
     (fuel : Nat) (hfuel : 2 * s.size + 2 ≤ fuel) (st : RState) :
     ((eval env impl (d.cfg none) fuel i s none st).errs = [] ↔ Spec.valid env d s i = true)
     ∧ (eval env impl (d.cfg none) fuel i s none st).stop = .done := by
-  sorry
+  exact errs_of_ex
+    (eval_valid env hre hurl hset impl d s i hs hws hwi hnum hty fuel (by omega)) st
 
 /-- `is_valid` as the entry point -/
 theorem isValid_agrees (env : Env) (hre : Spec.RegexTotal env) (hurl : Spec.UrlTotal env)
@@ -49,12 +51,13 @@ theorem isValid_agrees (env : Env) (hre : Spec.RegexTotal env) (hurl : Spec.UrlT
     (hnum : Spec.numSafe s = true) (hty : Spec.typesKnown d s = true)
     (fuel : Nat) (hfuel : 2 * s.size + 2 ≤ fuel) (st : RState) :
     (isValid (eval env impl (d.cfg none) fuel i s) st).1 = .ok (Spec.valid env d s i) := by
-  sorry
+  exact isValid_of_ex (prefixLaw_eval env impl _ fuel i s)
+    (eval_valid env hre hurl hset impl d s i hs hws hwi hnum hty fuel (by omega)) st
 
 /-- the specification does not depend on the depth bound once it exceeds the schema's size -/
 theorem valid_fuel_stable (env : Env) (d : Draft) (s i : Json) (n : Nat) (hn : s.size < n) :
     Spec.validN env d n s i = Spec.valid env d s i := by
-  sorry
+  exact valid_fuel_stable' env d s i n hn
 
 /-! corollaries where the surviving mutants of the property's `why_tests_cant` live -/
 
@@ -64,7 +67,7 @@ theorem additional_props_spec (env : Env) (hre : Spec.RegexTotal env)
     (props : List (Str × Json)) (pats : List Str) (ms : List (Str × Json)) :
     ∃ extras, findAdditional env props pats ms = .ok extras
       ∧ ∀ k, k ∈ extras ↔ (k ∈ ms.map (·.1) ∧ Json.hasKey k props = false ∧ ∀ p ∈ pats, Spec.rx env p k = false) := by
-  sorry
+  exact additional_props_spec' env hre props pats ms
 
 /-- type gating: every keyword whose clause concerns one instance type ignores instances of
     other types (stated for the length/size keywords through their common implementation) -/
@@ -72,6 +75,9 @@ theorem type_gating (cfg : Cfg) (ty t : String) (lt : Bool) (len : Json → Opti
     (f : TyFn) (hlook : lookupS (skey ty) cfg.types = some f) (hno : f.apply inst = false)
     (b : Option Nat) (st : RState) :
     kwLenBound cfg ty t lt len m inst b st = ⟨[], .done, st⟩ := by
-  sorry
+  unfold kwLenBound isTypeS isType
+  have hl : lookupS ty.toList cfg.types = some f := hlook
+  simp only [hl, hno, withRes, Bool.not_false, if_true]
+  rfl
 
 end JS.Props.C01
